@@ -686,6 +686,12 @@ let check_P line toks =
       | "color_ranks" -> Some (if ai = 0 then "0,7" else "7,0")
       | "ptype_parse_text" -> (match ptype_of_index an with Ok t -> Some (res_n (fun t -> string_of_int (match t with Pawn -> 0 | Knight -> 1 | Bishop -> 2 | Rook -> 3 | Queen -> 4 | King -> 5)) (parse_pt (letter t))) | _ -> None)
       | "ptype_parse_lower" -> (match ptype_of_index an with Ok t -> Some (res_n (fun t -> string_of_int (match t with Pawn -> 0 | Knight -> 1 | Bishop -> 2 | Rook -> 3 | Queen -> 4 | King -> 5)) (parse_pt (bytes_of_string (String.lowercase_ascii (tstr t))))) | _ -> None)
+      | "file_parse_str" | "rank_parse_str" | "sq_parse_str" | "ptype_parse_str" ->
+        let s = bytes_of_string (unhex a) in
+        let q f = function Ok x -> "ok:" ^ f x | Err _ -> "err" | Panic -> "panic" in
+        Some (match f with
+            | "file_parse_str" -> q ni (parse_file s) | "rank_parse_str" -> q ni (parse_rank s) | "sq_parse_str" -> q ni (parse_sq s)
+            | _ -> q (fun t -> string_of_int (match t with Pawn -> 0 | Knight -> 1 | Bishop -> 2 | Rook -> 3 | Queen -> 4 | King -> 5)) (parse_pt s))
       | "ptype_iter" -> Some "0,1,2,3,4,5"
       | "cr_has" -> let r = cr_of_int ai in Some (Printf.sprintf "%d,%d,%d" (if has_kingside r then 1 else 0) (if has_queenside r then 1 else 0) (if r <> Neither then 1 else 0))
       | "cr_text" -> Some (match cr_of_int ai with Neither -> "" | QueenSide -> "q" | KingSide -> "k" | BothSides -> "kq")
